@@ -1,0 +1,78 @@
+//go:build verif
+
+package generator
+
+// Machine-checked contracts for /verif (comment-only; compiled only with -tags verif).
+
+//@ func GenSchema.renderMarshalTag
+//@ props C05
+//@ safety
+//@ modifies nothing
+//@ ensures g.HasBaseType ==> result == "-"
+//@ ensures !g.HasBaseType ==> result == g.OriginalName+vs_opt(!g.Required && g.IsEmptyOmitted, ",omitempty")+vs_opt(g.IsJSONString, ",string")
+
+//@ func (*resolvedType).setIsEmptyOmitted
+//@ props C05
+//@ safety
+//@ modifies &rt.IsEmptyOmitted
+//@ requires rt != nil && schema != nil
+//@ ensures vs_has(schema.Extensions, xOmitEmpty) ==> rt.IsEmptyOmitted == vs_isTrue(schema.Extensions[xOmitEmpty])
+//@ ensures !vs_has(schema.Extensions, xOmitEmpty) ==> rt.IsEmptyOmitted == (tpe != array || rt.IsAliased)
+
+//@ func (*resolvedType).setIsJSONString
+//@ props C05
+//@ safety
+//@ modifies &rt.IsJSONString
+//@ requires rt != nil && schema != nil
+//@ ensures rt.IsJSONString == vs_has(schema.Extensions, xGoJSONString)
+
+//@ func boolExtension
+//@ props C02
+//@ safety
+//@ modifies nothing
+//@ ensures vs_has(ext, key) && vs_isBool(ext[key]) ==> result != nil && *result == vs_isTrue(ext[key])
+//@ ensures !(vs_has(ext, key) && vs_isBool(ext[key])) ==> result == nil
+
+//@ func nullableExtension
+//@ props C02
+//@ safety
+//@ modifies nothing
+//@ ensures vs_overridden(ext) ==> result != nil && *result == vs_override(ext)
+//@ ensures !vs_overridden(ext) ==> result == nil
+
+//@ func nullableBool
+//@ props C02
+//@ safety
+//@ modifies nothing
+//@ requires schema != nil
+//@ ensures vs_overridden(schema.Extensions) ==> result == vs_override(schema.Extensions)
+//@ ensures !vs_overridden(schema.Extensions) && isRequired && schema.Default == nil && !schema.ReadOnly ==> result
+//@ ensures !vs_overridden(schema.Extensions) && isRequired && (schema.Default != nil || schema.ReadOnly) ==> !result
+
+//@ func nullableNumber
+//@ props C02
+//@ safety
+//@ modifies nothing
+//@ requires schema != nil
+//@ ensures vs_overridden(schema.Extensions) ==> result == vs_override(schema.Extensions)
+//@ ensures !vs_overridden(schema.Extensions) && isRequired && !schema.ReadOnly ==> result
+//@ ensures !vs_overridden(schema.Extensions) && schema.ReadOnly ==> !result
+
+//@ func nullableString
+//@ props C02
+//@ safety
+//@ modifies nothing
+//@ requires schema != nil
+//@ ensures vs_overridden(schema.Extensions) ==> result == vs_override(schema.Extensions)
+//@ ensures !vs_overridden(schema.Extensions) && isRequired && !schema.ReadOnly ==> result
+//@ ensures !vs_overridden(schema.Extensions) && schema.ReadOnly ==> !result
+
+//@ func nullableStrfmt
+//@ props C02
+//@ safety
+//@ modifies nothing
+//@ requires schema != nil
+//@ ensures schema.Format == binary ==> !result
+//@ ensures schema.Format != binary && vs_overridden(schema.Extensions) ==> result == vs_override(schema.Extensions)
+//@ ensures schema.Format != binary && !vs_overridden(schema.Extensions) && isRequired && !schema.ReadOnly ==> result
+//@ ensures schema.Format != binary && !vs_overridden(schema.Extensions) && schema.ReadOnly ==> !result
